@@ -36,7 +36,16 @@ func (m *F84Model) Distance(seq1 []uint8, seq2 []uint8, weights []float64) (floa
 	var dist float64
 
 	trS, trV, _, _, total := countMutations(seq1, seq2, m.selectedSites, weights)
+	if total > 0 && trS == 0 && trV == 0 {
+		// No difference between the two sequences (the parameters of the model may be
+		// undefined, e.g. an alignment without any purine)
+		return 0, nil
+	}
 	trS, trV = trS/total, trV/total
+	if !(1.0-trS/(2.0*m.a)-(m.a-m.b)*trV/(2.0*m.a*m.c) > 0 && 1-trV/(2.0*m.c) > 0) {
+		// The estimator is undefined (saturated pair, or no comparable site)
+		return math.Inf(1), nil
+	}
 	if m.gamma {
 		dist = 2.0 * m.alpha * (m.a*math.Pow((1.0-trS/(2.0*m.a)-(m.a-m.b)*trV/(2.0*m.a*m.c)), -1./m.alpha) +
 			(m.b+m.c-m.a)*math.Pow((1-trV/(2.0*m.c)), -1./m.alpha) -
